@@ -183,7 +183,9 @@ class LocalShare:
 
     def __addPackage(self, buildId, size):
         def update(f):
-            meta = json.load(f)
+            # An empty file is an empty repository.
+            data = f.read()
+            meta = json.loads(data) if data else {}
             meta.setdefault("pkgs", {})[asHexStr(buildId)] = size
             f.seek(0)
             f.truncate()
@@ -200,15 +202,11 @@ class LocalShare:
                 with OpenLocked(fn, "r+", True) as f:
                     return update(f)
             except FileNotFoundError:
-                # Unusual case: does not exist yet -> create atomically.
-                try:
-                    with OpenLocked(fn, "x", True) as f:
-                        json.dump({"pkgs" : {asHexStr(buildId) : size}}, f)
-                        return size
-                except FileExistsError:
-                    # Almost impossible case: lost creation race -> update
-                    with OpenLocked(fn, "r+", True) as f:
-                        return update(f)
+                # Unusual case: does not exist yet -> create empty file (if
+                # nobody else was faster) and update it under the lock.
+                open(fn, "a").close()
+                with OpenLocked(fn, "r+", True) as f:
+                    return update(f)
         except OSError as e:
             raise BuildError("Error updating shared repo: "+str(e))
 
@@ -332,7 +330,9 @@ class LocalShare:
             # and usage of packages.
             candidates = []
             with OpenLocked(os.path.join(self.__path, "repo.json"), "r+", True) as rf:
-                repoMeta = json.load(rf)
+                # An empty file is an empty repository.
+                data = rf.read()
+                repoMeta = json.loads(data) if data else {}
 
                 # Scan all packages
                 for pkg, size in repoMeta.get("pkgs", {}).items():
